@@ -36,6 +36,10 @@ theorem generated_well_locked : ∀ bk, (skeletonsOf bk).all (wellLockedB bk) = 
 nothing while a lock is held -/
 theorem collect_paths_release_before_user_code : collectPaths.all noUserInLock = true := by decide
 
+/-- what a collect hands out by reference (an `Info`'s label dict, the target-info dict) is only ever rebound to a fresh object,
+never mutated in place — so a snapshot taken by `collect()` cannot change under the scraper that is still reading it -/
+theorem handed_out_values_are_rebound_not_mutated : noInPlaceOnHandedOut inPlace = true := by decide +kernel
+
 /-- a call of a generated method on consistently bound objects is a good call -/
 theorem call_of_generated {U : Type} (bk : Backend) (sk : List Sk) (hsk : sk ∈ skeletonsOf bk)
     (lobj : LockId → Nat) (vobj : Var → Nat) (lab : Var → U) :
